@@ -343,10 +343,62 @@ def km1(P, C):
             C.ob("KM-1", name, "exact-match", ok, f.where(), "key search: %s" % hits)
 
 
+def km2(P, C):
+    C.rule("KM-2", "the stored part of an auxiliary value read from a file is one (start, length) view of cfitsio's buffer: the pair handed to "
+           "the copy is the pair every trimming step worked on — each subscript whose index involves the length uses that start pointer — and "
+           "the only characters removed are an enclosing pair of quotes (blanks are kept: FITS padding and the user's blanks cannot be told apart)", floor=3)
+    f = [g for g in P.fns("read_fits_core") if g.unit == "driver"][0]
+    copies = []
+    for i, cal in f.calls():
+        if cal and cal["name"] == "copy":
+            txt, order = f.alpha(i)
+            if txt.replace(" ", "") == "copy(v0,(v0+v1),aux[v2][1])":
+                copies.append((i, order))
+    if len(copies) != 1:
+        raise core.AnalysisBroken("KM-2: the copy of the kept part of an auxiliary value (copy(start, start+length, aux[i][1])) was not found")
+    i, (B, L, _iv) = copies[0]
+    bad = []
+    n = 0
+    for x in f.walk():
+        if f.k(x) != "ArraySubscriptExpr":
+            continue
+        idx = f.nodes[x]["ch"][1]
+        if not any(f.k(y) == "DeclRefExpr" and f.nodes[y]["decl"]["id"] == L for y in f.walk(idx)):
+            continue
+        base = f.strip(f.nodes[x]["ch"][0])
+        n += 1
+        if f.k(base) == "DeclRefExpr" and f.nodes[base]["decl"]["id"] == B:
+            continue
+        if ts.root_member(f, base) and ts.root_member(f, base)[0] == "aux":
+            continue                                   # the terminator of the copy: aux[i][1][length]
+        bad.append(x)
+    C.ob("KM-2", "read_fits_core", "one-view", not bad and n >= 2, f.loc(bad[0]) if bad else f.loc(i),
+         ("%d subscripts indexed through the length, all on the start pointer it belongs to" % n) if not bad else
+         "%s is indexed with the length of the trimmed view but is not its start pointer: a different character is tested than the one removed" % f.render(bad[0]))
+    # what may be removed: one enclosing pair of quotes, and trailing blanks (the property lets values differ in trailing blanks only)
+    cmps = []
+    for x in f.walk():
+        if f.k(x) == "BinaryOperator" and f.nodes[x]["op"] in ("==", "!="):
+            l = f.strip(f.nodes[x]["ch"][0])
+            if f.k(l) == "ArraySubscriptExpr" and f.k(f.strip(f.nodes[l]["ch"][0])) == "DeclRefExpr" and f.nodes[f.strip(f.nodes[l]["ch"][0])]["decl"]["id"] == B:
+                at_end = any(f.k(y) == "DeclRefExpr" and f.nodes[y]["decl"]["id"] == L for y in f.walk(f.nodes[l]["ch"][1]))
+                cmps.append((f.nodes[f.strip(f.nodes[x]["ch"][1])].get("cv"), at_end))
+    okc = bool(cmps) and all(c == 39 or (c == 32 and end) for c, end in cmps)
+    C.ob("KM-2", "read_fits_core", "only-quotes-and-trailing-blanks", okc, f.loc(i),
+         "characters of the view are compared only with the quote, or with the blank at the end of the view: %s" % cmps)
+    adv = [x for x in f.walk() if f.k(x) in ("UnaryOperator", "CompoundAssignOperator") and f.nodes[x]["op"] in ("++", "+=") and
+           f.k(f.strip(f.nodes[x]["ch"][0])) == "DeclRefExpr" and f.nodes[f.strip(f.nodes[x]["ch"][0])]["decl"]["id"] == B]
+    inloop = [x for x in adv if any(f.k(a) in ("WhileStmt", "DoStmt") or (f.k(a) == "ForStmt" and B in [f.nodes[y]["decl"]["id"] for y in f.walk(f.nodes[a].get("cond", -1)) if f.k(y) == "DeclRefExpr"])
+                                    for a in f.ancestors(x))]
+    C.ob("KM-2", "read_fits_core", "start-advances-once", len(adv) == 1 and not inloop and f.nodes[adv[0]]["op"] == "++", f.loc(adv[0]) if adv else f.loc(i),
+         "the start of the view moves past the opening quote only (one increment, not in a trimming loop): %d" % len(adv))
+
+
 def run(P, C):
     api1(P, C)
     ks1(P, C)
     km1(P, C)
+    km2(P, C)
     ts1w(P, C)
     fs4(P, C)
     fs5(P, C)
